@@ -86,21 +86,21 @@ package bgv
 
 // ---- no residue in the output of a scalar operation (property C09) ----
 //@ afunc Evaluator.Add#scalar
-//@   property C09
+//@   property C09 C05
 //@   dyn op1 *big.Int
 //@   nilable
 //@   requires len(op0.Value) >= 1 && len(op0.Value) <= 3
 //@   ensures implies(isnil(err), len(opOut.Value) == len(op0.Value))
 
 //@ afunc Evaluator.Mul#scalar
-//@   property C09
+//@   property C09 C05
 //@   dyn op1 *big.Int
 //@   nilable
 //@   requires len(op0.Value) >= 1 && len(op0.Value) <= 3
 //@   ensures implies(isnil(err), len(opOut.Value) == len(op0.Value))
 
 //@ afunc Evaluator.Sub#scalar
-//@   property C09
+//@   property C09 C05
 //@   dyn op1 *big.Int
 //@   nilable
 //@   requires len(op0.Value) >= 1 && len(op0.Value) <= 3
@@ -159,6 +159,12 @@ package bgv
 //@   case len(op0.Value) == 3 && len(op1.Value) == 2 && len(opOut.Value) == 3
 //@   case len(op0.Value) == 2 && len(op1.Value) == 3 && len(opOut.Value) == 2
 //@   case len(op0.Value) == 2 && len(op1.Value) == 2 && len(opOut.Value) == 3
+//@   case len(op0.Value) == 2 && len(op1.Value) == 2 ; alias opOut = op0
+//@   case len(op0.Value) == 2 && len(op1.Value) == 2 ; alias opOut = op1
+//@   case len(op0.Value) == 2 && len(op1.Value) == 3 ; alias opOut = op0
+//@   case len(op0.Value) == 2 && len(op1.Value) == 3 ; alias opOut = op1
+//@   case len(op0.Value) == 3 && len(op1.Value) == 2 ; alias opOut = op0
+//@   case len(op0.Value) == 3 && len(op1.Value) == 2 ; alias opOut = op1
 //@   requires old(cmpval(op0.MetaData.PlaintextMetaData.Scale, op1.MetaData.PlaintextMetaData.Scale)) == 0
 //@   requires isntt(op0.Value[0]) && isntt(op0.Value[1]) && isntt(op1.Value[0]) && isntt(op1.Value[1]) && mexp(op0.Value[0]) == 0 && mexp(op0.Value[1]) == 0 && mexp(op1.Value[0]) == 0 && mexp(op1.Value[1]) == 0
 //@   ensures implies(isnil(err), val(opOut.Value[0]) == old(val(op0.Value[0])) - old(val(op1.Value[0])) && val(opOut.Value[1]) == old(val(op0.Value[1])) - old(val(op1.Value[1])))
@@ -175,6 +181,12 @@ package bgv
 //@   case len(op0.Value) == 3 && len(op1.Value) == 2 && len(opOut.Value) == 3
 //@   case len(op0.Value) == 2 && len(op1.Value) == 3 && len(opOut.Value) == 2
 //@   case len(op0.Value) == 2 && len(op1.Value) == 2 && len(opOut.Value) == 3
+//@   case len(op0.Value) == 2 && len(op1.Value) == 2 ; alias opOut = op0
+//@   case len(op0.Value) == 2 && len(op1.Value) == 2 ; alias opOut = op1
+//@   case len(op0.Value) == 2 && len(op1.Value) == 3 ; alias opOut = op0
+//@   case len(op0.Value) == 2 && len(op1.Value) == 3 ; alias opOut = op1
+//@   case len(op0.Value) == 3 && len(op1.Value) == 2 ; alias opOut = op0
+//@   case len(op0.Value) == 3 && len(op1.Value) == 2 ; alias opOut = op1
 //@   requires old(cmpval(op0.MetaData.PlaintextMetaData.Scale, op1.MetaData.PlaintextMetaData.Scale)) == 0
 //@   requires isntt(op0.Value[0]) && isntt(op0.Value[1]) && isntt(op1.Value[0]) && isntt(op1.Value[1]) && mexp(op0.Value[0]) == 0 && mexp(op0.Value[1]) == 0 && mexp(op1.Value[0]) == 0 && mexp(op1.Value[1]) == 0
 //@   ensures implies(isnil(err), val(opOut.Value[0]) == old(val(op0.Value[0])) + old(val(op1.Value[0])) && val(opOut.Value[1]) == old(val(op0.Value[1])) + old(val(op1.Value[1])))
@@ -268,6 +280,8 @@ package bgv
 //@   case len(op0.Value) == 3 && !eval.ScaleInvariant ; alias opOut = op0
 //@   requires len(op0.Value[0].Coeffs) >= 1 && len(opOut.Value[0].Coeffs) >= 1
 //@   ensures implies(isnil(err), len(opOut.Value) == len(op0.Value))
+//@   ensures implies(isnil(err), val(opOut.Value[0]) == uf_divround(old(val(op0.Value[0]))) && val(opOut.Value[1]) == uf_divround(old(val(op0.Value[1]))))
+//@   ensures implies(isnil(err) && old(len(op0.Value)) == 3, val(opOut.Value[2]) == uf_divround(old(val(op0.Value[2]))))
 //@   ensures implies(isnil(err), iff(opOut.MetaData.CiphertextMetaData.IsNTT, old(op0.MetaData.CiphertextMetaData.IsNTT)) && iff(opOut.MetaData.PlaintextMetaData.IsBatched, old(op0.MetaData.PlaintextMetaData.IsBatched)))
 //@   ensures implies(old(len(op0.Value[0].Coeffs)) == 1, !isnil(err))
 
